@@ -1228,7 +1228,7 @@ class Corr:
                 if y.value == 0:
                     raise ValueError('Division by zero will return undefined correlator')
             if isinstance(y, CObs):
-                if y.is_zero():
+                if all(getattr(part, 'value', part) == 0 for part in (y.real, y.imag)):
                     raise ValueError('Division by zero will return undefined correlator')
 
             newcontent = []
